@@ -34,7 +34,7 @@ class PROP(Prop):
     design_ref = "DESIGN.md section 4, C20"
     targets = [f"{XSPEC}:XSpec.__init__", f"{XSPEC}:XSpec.__getattr__", f"{XSPEC}:XSpec.__str__", f"{XSPEC}:XSpec.__hash__",
                f"{XSPEC}:XSpec.__eq__", f"{XSPEC}:XSpec.__ne__",
-               f"{MULTI}:Group.__getitem__#id", f"{MULTI}:Group.__getitem__#index", f"{MULTI}:Group.__contains__", f"{MULTI}:Group.__len__",
+               f"{MULTI}:Group.__getitem__#id", f"{MULTI}:Group.__getitem__#index", f"{MULTI}:Group.__contains__", f"{MULTI}:Group.__len__", f"{MULTI}:Group.__iter__",
                f"{MULTI}:Group.allocate_id", f"{MULTI}:Group._register"]
     heavy = {f"{XSPEC}:XSpec.__init__": 8, f"{MULTI}:Group._register": 2, f"{MULTI}:Group.allocate_id": 2}
     assumptions = [
@@ -58,6 +58,22 @@ class PROP(Prop):
         real = w.contracts[f"{XSPEC}:XSpec.__str__"]
         return [("XSpec.__str__-returns-something-else", Contract(real.target, real.params, cases=[
             Case("ok", restype=real.cases[0].restype, post=lambda a, h, h2, r: [r == z3.Concat(h("XSpec", a.self, "_spec"), z3.StringVal("/"))])]))]
+
+    def static_checks(self, w):
+        """a name that is absent from the spec string reads as None: ordinary attribute lookup finds a class-level default BEFORE __getattr__ is asked, so every default must be None"""
+        import ast
+
+        from pyvc import extract
+
+        out = []
+        mod = extract.load(XSPEC)
+        cls = next(n for n in mod.tree.body if isinstance(n, ast.ClassDef) and n.name == "XSpec")
+        for n in cls.body:
+            tgt = n.target if isinstance(n, ast.AnnAssign) else (n.targets[0] if isinstance(n, ast.Assign) and len(n.targets) == 1 else None)
+            if isinstance(tgt, ast.Name) and not tgt.id.startswith("__"):
+                val = getattr(n, "value", None)
+                out.append((f"static/XSpec/class-default-is-None:{tgt.id}", val is None or (isinstance(val, ast.Constant) and val.value is None), f"{tgt.id} = {ast.unparse(val) if val is not None else '<annotation only>'}"))
+        return out
 
     def replay(self, ob):
         m = ob.model or {}
